@@ -115,19 +115,49 @@ static void check_pairs(Solver& eigs, Index ret, const Context& cx, const Args& 
         }
         else if (cx.R->prescribed || cx.normal)
         {
-            // complex shift: nu(lambda) has critical points, so the back-transformed scale depends on the spectrum:
-            // K = max_j |lambda_j - theta| / |nu_j - nu(theta)| (j != nearest), and 1/|nu'(lambda_j*)| for the nearest one
-            // Both roots of the back-transformation map to the same nu, so nu_of(theta) IS the Ritz value the solver converged on, whichever
-            // root it reported. The eigenvalue it belongs to is therefore identified in the nu-plane (nearest nu_j), not by the reported
-            // theta: a wrongly selected root must not be able to move the reference point (and with it the scale) of its own check.
+            // complex shift: nu(lambda) has critical points, so the back-transformed scale depends on the spectrum. With x = sum_j c_j s_j,
+            // (A - theta) x = sum_j (lambda_j - theta) c_j s_j and (OP - nu) x = sum_j (nu_j - nu) c_j s_j for ANY theta, hence
+            //     ||(A - theta) x|| <= cond(S) * K * ||(OP - nu) x||,   K = max_j |lambda_j - theta| / |nu_j - nu|
+            // (1/|nu'(lambda_j*)| for the nearest eigenvalue, where the quotient is 0/0 in the limit). nu = nu_of(theta) is the Ritz value the
+            // solver converged on whichever root it reported, because both roots of the back-transformation map to the same nu.
             cld nu = nu_of(cx, th[i]);
             size_t jstar = 0;
             for (size_t j = 1; j < cx.ref_ev.size(); j++)
-                if (std::abs(nu_of(cx, cx.ref_ev[j]) - nu) < std::abs(nu_of(cx, cx.ref_ev[jstar]) - nu))
+                if (std::abs(cx.ref_ev[j] - th[i]) < std::abs(cx.ref_ev[jstar] - th[i]))
                     jstar = j;
+            // ROOT CHOICE. The inequality above is weak (K huge) exactly when the reported theta is the WRONG root of the quadratic, so a wrong
+            // root could hide behind its own scale. It is decided separately and without any scale: of the two roots of nu, the one that is the
+            // eigenvalue gives the (much) smaller true residual with the returned vector. The reported root may not be worse than the other one
+            // by more than a factor 4 plus the accuracy asked for (near the branch point the two roots coincide and either is fine).
+            if (std::abs(nu) > 0)
+            {
+                const ld si = cx.sigma.imag();
+                const cld sq = std::sqrt(cld(1) - cld(4 * si * si) * nu * nu);
+                const cld r1 = cld(cx.sigma.real(), 0) + (cld(1) + sq) / (cld(2) * nu);
+                const cld r2 = cld(cx.sigma.real(), 0) + cld(2 * si * si) * nu / (cld(1) + sq);
+                const cld alt = (std::abs(r1 - th[i]) >= std::abs(r2 - th[i])) ? r1 : r2;  // the root that was NOT reported
+                const ld res_alt = (cx.Ac * X.col(i) - alt * X.col(i)).norm();
+                const ld slack2 = 16 * a.tol * cx.norm_shifted + round_slack + CTOL * (ld) n * EPS * rfac * cx.kappa_shifted * cx.norm_shifted;
+                // the library's probe: real shift r = u1 * Re(sigma) + u2 with the first two draws of its generator seeded with 0
+                {
+                    const ld u1 = (ld) -0.49999217363074056L, u2 = (ld) -0.36846221185683375L;
+                    const ld r = u1 * cx.sigma.real() + u2;
+                    ld dmin = std::numeric_limits<ld>::infinity(), rad = 0;
+                    for (const cld& l : cx.ref_ev)
+                    {
+                        dmin = std::min(dmin, std::abs(l - cld(r, 0)));
+                        rad = std::max(rad, std::abs(l));
+                    }
+                    c.feat["probe_shift_distance_to_spectrum/radius"] = (double) (dmin / rad);
+                    c.feat["probe_shift"] = (double) r;
+                }
+                VF_CHECK(res <= 4 * res_alt + slack2, "wrong_root",
+                         when << ": pair " << i << " is reported with lambda=" << th[i] << " (||A x - lambda x|| = " << vf::num(res) << ") but the other root of the back-transformation of its Ritz value nu=" << nu
+                              << ", lambda'=" << alt << ", fits the returned vector far better (||A x - lambda' x|| = " << vf::num(res_alt) << "): the wrong root was selected (sigma=" << cx.sigma << ", ||A||=" << vf::num(cx.normA) << ", the solver's probe shift r=" << c.f("probe_shift") << " is " << c.f("probe_shift_distance_to_spectrum/radius") << " spectral radii from the nearest eigenvalue of A, tol=" << vf::num(a.tol) << ")");
+            }
             if (cx.re_sigma_on_eigenvalue && std::abs(cx.ref_ev[jstar] - cld(cx.sigma.real(), 0)) <= (ld) 1e-10 * cx.normA)
             {
-                // the eigenvalue at Re sigma itself has nu = 0: no residual scale exists for it (unit norm and finiteness stay asserted)
+                // the eigenvalue at Re sigma itself has nu = 0: no residual scale exists for it (unit norm, finiteness and the root choice stay asserted)
                 c.cls("pair_at_re_sigma(residual not asserted)");
                 continue;
             }
@@ -141,11 +171,11 @@ static void check_pairs(Solver& eigs, Index ret, const Context& cx, const Args& 
                     K = std::max(K, 1 / std::abs(dnu));
                 }
                 else if (std::abs(cx.ref_ev[j] - cx.ref_ev[jstar]) <= (ld) 1e-12 * cx.normA)
-                    continue;  // another copy of the same (multiple) eigenvalue: a component along it changes neither residual
+                    continue;  // another copy of the same (multiple) eigenvalue: it contributes like the nearest one
                 else
                 {
                     ld dn = std::abs(nu_of(cx, cx.ref_ev[j]) - nu);
-                    K = std::max(K, dn > 0 ? std::abs(cx.ref_ev[j] - cx.ref_ev[jstar]) / dn : std::numeric_limits<ld>::infinity());
+                    K = std::max(K, dn > 0 ? std::abs(cx.ref_ev[j] - th[i]) / dn : std::numeric_limits<ld>::infinity());
                 }
             }
             ld KS = K * cx.R->condS;
@@ -553,10 +583,17 @@ static void run_case(vf::Draw& d, vf::Case& c)
     }
 }
 
+// Known-finding signatures (KNOWN_FINDINGS.txt)
 static std::string match(const vf::Violation& v, const vf::Case& c)
 {
-    (void) v;
-    (void) c;
+    // KF-C02-1: GenEigsComplexShiftSolver decides between the two roots of its back-transformation by applying the operator at ONE fixed
+    // pseudo-random real probe shift r = u1 * Re(sigma) + u2 and comparing with v / (root - r). When r happens to lie next to an eigenvalue of A
+    // (any eigenvalue, wanted or not), inv(A - r I) amplifies the tolerance-level error of the Ritz vector along that eigenvector by
+    // 1/|lambda_k - r| and the comparison is decided by noise: the wrong root is reported although the other one fits the returned vector.
+    // Keyed on the violation kind AND on the probe shift being within 5 % of the spectral radius of an eigenvalue of A (computed by the
+    // harness from the reference spectrum): a wrong root with a probe shift that is far from the spectrum is a different defect and is reported.
+    if (v.kind == "wrong_root" && c.f("probe_shift_distance_to_spectrum/radius", 1.0) < 0.05)
+        return "complex_shift_root_probe_next_to_an_eigenvalue";
     return "";
 }
 
